@@ -468,10 +468,16 @@ pixman_transform_init_scale (struct pixman_transform *t,
     t->matrix[2][2] = F (1);
 }
 
-static pixman_fixed_t
-fixed_inverse (pixman_fixed_t x)
+static pixman_bool_t
+fixed_inverse (pixman_fixed_t x, pixman_fixed_t *inverse)
 {
-    return (pixman_fixed_t) ((((pixman_fixed_48_16_t) F (1)) * F (1)) / x);
+    pixman_fixed_48_16_t v = (((pixman_fixed_48_16_t) F (1)) * F (1)) / x;
+
+    if (v > pixman_max_fixed_48_16 || v < pixman_min_fixed_48_16)
+	return FALSE;
+
+    *inverse = (pixman_fixed_t) v;
+    return TRUE;
 }
 
 PIXMAN_EXPORT pixman_bool_t
@@ -481,9 +487,17 @@ pixman_transform_scale (struct pixman_transform *forward,
                         pixman_fixed_t           sy)
 {
     struct pixman_transform t;
+    pixman_fixed_t inv_sx = 0, inv_sy = 0;
 
     if (sx == 0 || sy == 0)
 	return FALSE;
+
+    /* 1/sx or 1/sy may not be representable (|s| < 2^-15) */
+    if (reverse &&
+	(!fixed_inverse (sx, &inv_sx) || !fixed_inverse (sy, &inv_sy)))
+    {
+	return FALSE;
+    }
 
     if (forward)
     {
@@ -494,8 +508,7 @@ pixman_transform_scale (struct pixman_transform *forward,
     
     if (reverse)
     {
-	pixman_transform_init_scale (&t, fixed_inverse (sx),
-	                             fixed_inverse (sy));
+	pixman_transform_init_scale (&t, inv_sx, inv_sy);
 	if (!pixman_transform_multiply (reverse, reverse, &t))
 	    return FALSE;
     }
